@@ -6,6 +6,8 @@ CONSTANTS
   Contents = {"c1","c2"}
   Ops = {"Check","Len"}
   Registers = FALSE
+  Sharing = FALSE
+  Plan = ""
   MaxCalls = 5
 INVARIANTS TypeOK Emit
 PROPERTIES FrozenRegsStable
